@@ -94,15 +94,15 @@ func acs(ti *terminfo.Terminfo) (map[byte]rune, map[rune]bool) {
 }
 
 type rig struct {
-	ti     *terminfo.Terminfo
-	cs     string
-	enc    xenc.Encoding
-	tty    *common.FakeTty
-	term   *vt.Term
-	s      tcell.Screen
-	glyphs map[rune]bool
-	rep    map[rune]byte // ACS byte that draws the glyph
-	fb     map[rune]string
+	ti      *terminfo.Terminfo
+	cs      string
+	enc     xenc.Encoding
+	tty     *common.FakeTty
+	term    *vt.Term
+	s       tcell.Screen
+	glyphs  map[rune]bool
+	rep     map[rune]byte // ACS byte that draws the glyph
+	fb      map[rune]string
 	errSeen int
 }
 
@@ -443,48 +443,61 @@ func acsAll(entries []common.Entry) {
 			continue // the reference terminal decodes the ECMA-48 family only
 		}
 		for _, cs := range css {
-			item++
-			if !hc.Mine(item) {
-				continue
-			}
-			if w.Expired() {
-				return
-			}
-			r := newRig(e.Ti, cs[0], cs[1], 6, 1)
-			cls := termClass(e.Ti)
-			r.s.Show()
-			for _, g := range runes {
-				if asymmetric(r.enc, g) {
+			for _, altscreen := range []string{"", "disable"} {
+				item++
+				if !hc.Mine(item) {
 					continue
 				}
-				w.R.Evaluations++
-				chars, canPlain, _ := r.expect(g)
-				r.s.SetContent(0, 0, 'x', nil, tcell.StyleDefault)
-				r.s.SetContent(1, 0, g, nil, tcell.StyleDefault)
-				r.s.SetContent(2, 0, ' ', nil, tcell.StyleDefault)
-				r.s.SetContent(3, 0, ' ', nil, tcell.StyleDefault)
-				r.s.SetContent(4, 0, 'y', nil, tcell.StyleDefault)
-				r.s.Sync()
-				ctx := fmt.Sprintf("%s (%s), charset %s, ACS rune U+%04X", e.Name, cls, cs[0], g)
-				if sig, d := r.health(ctx); sig != "" {
-					w.Violation("acs-all:"+sig+":"+e.Name, d, map[string]interface{}{"entry": e.Name, "charset": cs[0], "rune": g})
-					continue
+				if w.Expired() {
+					return
 				}
-				exp := append([]rune{'x'}, chars...)
-				for len(exp) < 4 {
-					exp = append(exp, ' ')
+				// the alternate character set must work wherever the screen lives (the charset
+				// designation is not a property of the alternate screen buffer)
+				if altscreen == "" {
+					os.Unsetenv("TCELL_ALTSCREEN")
+				} else {
+					os.Setenv("TCELL_ALTSCREEN", altscreen)
 				}
-				exp = append(exp, 'y', ' ')
-				row := r.rowText(0)
-				if !r.sameGlyphs(row, exp) {
-					w.Violation("acs-all:row:"+e.Name+":"+cs[0], fmt.Sprintf("%s: the terminal row shows %q, want %q", ctx, string(row), string(exp)), map[string]interface{}{"entry": e.Name, "charset": cs[0], "rune": g})
+				r := newRig(e.Ti, cs[0], cs[1], 6, 1)
+				os.Unsetenv("TCELL_ALTSCREEN")
+				cls := termClass(e.Ti)
+				if altscreen != "" {
+					cls += ":altscreen-" + altscreen
 				}
-				if got := r.s.CanDisplay(g, false); got != canPlain {
-					w.Violation("acs-all:candisplay:"+e.Name+":"+cs[0], fmt.Sprintf("%s: CanDisplay(r,false) = %v, want %v", ctx, got, canPlain), map[string]interface{}{"entry": e.Name, "charset": cs[0], "rune": g})
+				r.s.Show()
+				for _, g := range runes {
+					if asymmetric(r.enc, g) {
+						continue
+					}
+					w.R.Evaluations++
+					chars, canPlain, _ := r.expect(g)
+					r.s.SetContent(0, 0, 'x', nil, tcell.StyleDefault)
+					r.s.SetContent(1, 0, g, nil, tcell.StyleDefault)
+					r.s.SetContent(2, 0, ' ', nil, tcell.StyleDefault)
+					r.s.SetContent(3, 0, ' ', nil, tcell.StyleDefault)
+					r.s.SetContent(4, 0, 'y', nil, tcell.StyleDefault)
+					r.s.Sync()
+					ctx := fmt.Sprintf("%s (%s), charset %s, ACS rune U+%04X", e.Name, cls, cs[0], g)
+					if sig, d := r.health(ctx); sig != "" {
+						w.Violation("acs-all:"+sig+":"+e.Name, d, map[string]interface{}{"entry": e.Name, "charset": cs[0], "rune": g})
+						continue
+					}
+					exp := append([]rune{'x'}, chars...)
+					for len(exp) < 4 {
+						exp = append(exp, ' ')
+					}
+					exp = append(exp, 'y', ' ')
+					row := r.rowText(0)
+					if !r.sameGlyphs(row, exp) {
+						w.Violation("acs-all:row:"+e.Name+":"+cs[0], fmt.Sprintf("%s: the terminal row shows %q, want %q", ctx, string(row), string(exp)), map[string]interface{}{"entry": e.Name, "charset": cs[0], "rune": g})
+					}
+					if got := r.s.CanDisplay(g, false); got != canPlain {
+						w.Violation("acs-all:candisplay:"+e.Name+":"+cs[0], fmt.Sprintf("%s: CanDisplay(r,false) = %v, want %v", ctx, got, canPlain), map[string]interface{}{"entry": e.Name, "charset": cs[0], "rune": g})
+					}
+					w.AddDistinct(1)
 				}
-				w.AddDistinct(1)
+				r.s.Fini()
 			}
-			r.s.Fini()
 		}
 	}
 }
